@@ -2,6 +2,7 @@ package main
 
 import (
 	"fmt"
+	"go/token"
 	"go/types"
 	"sort"
 	"strings"
@@ -28,6 +29,49 @@ func ruleC14(r *Report) {
 	checkTrustedCasts(r, p, libFunctions(p), "C14.no-trusted-cast")
 	checkBodyWrites(r, p)
 	checkEndpointTypes(r, p)
+}
+
+// isConstantText: v is a compile-time constant string, a concatenation of such, or a parameter of an unexported
+// function that receives such a string at every call site of the module.
+func isConstantText(p *Prog, fn *ssa.Function, v ssa.Value, depth int) bool {
+	if depth > 64 {
+		return false
+	}
+	switch x := v.(type) {
+	case *ssa.Const:
+		return true
+	case *ssa.BinOp:
+		return x.Op == token.ADD && isConstantText(p, fn, x.X, depth+1) && isConstantText(p, fn, x.Y, depth+1)
+	case *ssa.Phi:
+		for _, e := range x.Edges {
+			if !isConstantText(p, fn, e, depth+1) {
+				return false
+			}
+		}
+		return len(x.Edges) > 0
+	case *ssa.Parameter:
+		if fn.Object() != nil && fn.Object().Exported() {
+			return false
+		}
+		idx := -1
+		for i, q := range fn.Params {
+			if q == x {
+				idx = i
+			}
+		}
+		sites := p.CallersOf(fn)
+		if idx < 0 || len(sites) == 0 {
+			return false
+		}
+		for _, cs := range sites {
+			arg := cs.Arg(idx)
+			if arg == nil || !isConstantText(p, cs.Caller, arg, depth+1) {
+				return false
+			}
+		}
+		return true
+	}
+	return false
 }
 
 func libFunctions(p *Prog) []*ssa.Function {
@@ -59,7 +103,7 @@ func checkTemplateTypes(r *Report, p *Prog, fns []*ssa.Function, rule string) {
 					r.Fn(p.FnName(fn))
 					r.OK(rule, p.FnName(fn)+": template executed", p.InstrPos(in), "html/template")
 				case nm == "(*html/template.Template).Parse" || nm == "(*text/template.Template).Parse":
-					_, isConst := c.Call.Args[1].(*ssa.Const)
+					isConst := isConstantText(p, fn, c.Call.Args[1], 0)
 					r.Check(isConst, rule, p.FnName(fn)+": template source is a compile-time constant", p.InstrPos(in), "constant", "a template is parsed from a non-constant string (peer-controlled text could become template code)")
 				}
 			}
@@ -303,10 +347,16 @@ func checkEndpointTypes(r *Report, p *Prog) {
 	pk := p.ByPath[modPath]
 	sc := pk.Types.Scope()
 	// the checker: role = func(string, string) (string, error) calling url.Parse
+	// (the parse may sit in an unexported helper of the checker)
 	var checker *ssa.Function
-	for _, fn := range p.FuncsCalling("net/url.Parse") {
-		if inPkg(fn, modPath) && fn.Signature.Recv() == nil && fn.Signature.Params().Len() == 2 && fn.Signature.Results().Len() == 2 && errIndex(fn) == 1 && isStringType(fn.Signature.Results().At(0).Type()) {
-			checker = fn
+	for _, fn := range p.modFns {
+		if !p.InLibrary(fn) || !inPkg(fn, modPath) || fn.Signature.Recv() != nil || fn.Signature.Params().Len() != 2 || fn.Signature.Results().Len() != 2 || errIndex(fn) != 1 || !isStringType(fn.Signature.Results().At(0).Type()) {
+			continue
+		}
+		for _, f := range helperRegion(p, fn, 2) {
+			if len(callsTo(f, "net/url.Parse")) > 0 {
+				checker = fn
+			}
 		}
 	}
 	if checker == nil {
@@ -420,8 +470,11 @@ func checkEndpointTypes(r *Report, p *Prog) {
 	// every field of metadata descriptors whose element type has Binding+Location is one of the checked types: covered
 	// by the loop above (any such type must itself have the UnmarshalXML).
 
-	// the checker
+	// the checker (with the unexported helpers it is split into)
 	a := NewAnalysis(p)
+	a.Inline = func(f *ssa.Function) bool {
+		return f.Pkg == checker.Pkg && f != checker && p.InLibrary(f) && (f.Object() == nil || !f.Object().Exported()) && f.Signature.Results().Len() == 1 && (errIndex(f) == 0 || isPredicate(f))
+	}
 	B := a.B
 	t := NewTable(r, a, checker)
 	fc := t.FC
